@@ -117,8 +117,9 @@ func (p *proxy) call(ctx erpc.UnknownCallCtx) (interface{}, *erpc.Status) {
 	})
 	stat := callcmd.Status()
 	if !stat.OK() && stat.Code() < 200 && stat.Code() > 99 {
-		stat.SetCode(erpc.CodeBadGateway)
-		stat.SetMsg(erpc.CodeText(erpc.CodeBadGateway))
+		// map onto Bad Gateway with a new status: the forwarder may have returned one that is shared
+		// by the whole process (e.g. the framework's connection-closed status)
+		stat = erpc.NewStatus(erpc.CodeBadGateway, erpc.CodeText(erpc.CodeBadGateway), stat.Cause())
 	}
 	return result, stat
 }
@@ -141,8 +142,9 @@ func (p *proxy) push(ctx erpc.UnknownPushCtx) *erpc.Status {
 	label.ServiceMethod = ctx.ServiceMethod()
 	stat := p.pushForwarder(&label).Push(label.ServiceMethod, ctx.InputBodyBytes(), settings...)
 	if !stat.OK() && stat.Code() < 200 && stat.Code() > 99 {
-		stat.SetCode(erpc.CodeBadGateway)
-		stat.SetMsg(erpc.CodeText(erpc.CodeBadGateway))
+		// map onto Bad Gateway with a new status: the forwarder may have returned one that is shared
+		// by the whole process (e.g. the framework's connection-closed status)
+		stat = erpc.NewStatus(erpc.CodeBadGateway, erpc.CodeText(erpc.CodeBadGateway), stat.Cause())
 	}
 	return stat
 }
